@@ -184,7 +184,7 @@ pub fn gen_file(rng: &mut Rng, format: Format, protein: bool, n_records: usize) 
         text.push_str(&format!("VV  {}\nXX\n//\n", phrase(rng)));
     }
     for r in 0..n_records {
-        let w = if rng.chance(0.1) { rng.range(30, 40) } else { rng.range(1, 16) };
+        let w = if rng.chance(0.03) { rng.range(99, 135) } else if rng.chance(0.1) { rng.range(30, 40) } else { rng.range(1, 16) };
         let id = word(rng, 1, 12);
         let desc = if rng.chance(0.7) { Some(phrase(rng)) } else { None };
         match format {
